@@ -239,27 +239,76 @@ def wl_golden(tier, seed):
             ("l2", l2_batch(seed + 9, 4 if tier == "quick" else 30, nops=60 if tier == "quick" else 200, base=700), dict(per_tlc=2, tlc_jobs=6))]
 
 
-def mc_buf(tier):
-    return [dict(module="MCStore_q.tla", cfg="MCStore_q.cfg", workers=8)]
+def wl_layout(tier, seed):
+    import random
+    rng = random.Random(seed)
+    KOFF = ([192, 16376, 16384, 2097144, 2097152, 268435448, 268435456, 2147483640], [0, 192, 16384, 2097152, 268435456])
+    if tier == "quick":
+        wins = [(0, 70000)] + [(b - 300, b + 300) for b in (131072, 1 << 20, (1 << 21), (1 << 24) - 600)]
+        probe = gen.gen_probe(wins, 3000, ([192, 16384, 2097152], [0, 192, 16384]), chunk=100000)
+        lens = sorted(set(list(range(0, 260)) + rng.sample(range(260, 4200), 60) + [1017, 1018, 1019, 1020, 1021, 1022, 1023, 4093, 4094, 4095, 4096]))
+        big = [131060 + i for i in range(0, 20, 3)]
+    else:
+        probe = gen.gen_probe([(0, 1 << 24)], 65536, KOFF)
+        lens = list(range(0, 4201))
+        big = [x + d for x in (4096, 131072, 1 << 20, 1 << 24) for d in range(-40, 41, 1) if x + d <= (1 << 24)]
+    per = 120
+    sweeps = [gen.gen_sweep(seed * 1000 + i, idbase=(i + 1) * IDSTEP, lens=lens[j:j + per], name="sweep_%d" % i)
+              for i, j in enumerate(range(0, len(lens), per))]
+    bigs = [gen.gen_sweep(seed * 1000 + 500 + i, idbase=(500 + i) * IDSTEP, lens=big[j:j + 12], name="sweepbig_%d" % i)
+            for i, j in enumerate(range(0, len(big), 12))]
+    return [("probe", [probe], dict(per_tlc=1, tlc_jobs=1, xmx="6g", tlc_timeout=7200)),
+            ("sweep", sweeps, dict(per_tlc=1, tlc_jobs=8)),
+            ("sweepbig", bigs, dict(per_tlc=1, tlc_jobs=8, xmx="4g", op_timeout=60))] + wl_core(tier, seed)[:1]
+
+
+def _mc(module, cfg, **kw):
+    d = dict(module=module, cfg=cfg, workers=kw.pop("workers", 8))
+    d.update(kw)
+    return d
+
+
+def mc_buf(tier, witness=None):
+    q = [_mc("AbyBuf.tla", "MCBuf_q.cfg", workers=12)]
+    if witness == "pinned":
+        q.append(_mc("AbyBuf.tla", "MCBuf_pinned.cfg", workers=2, witness="FlushDurable"))
+    if witness == "clearearly":
+        q.append(_mc("AbyBuf.tla", "MCBuf_clearearly.cfg", workers=2, witness="FlushErrKeeps"))
+    if tier == "thorough":
+        q.append(_mc("AbyBuf.tla", "MCBuf_t.cfg", workers=12, xmx="16g", timeout=3600))
+    return q
+
+
+def mc_db(tier, d8=False):
+    q = [_mc("MCDb.tla", "MCDb_q.cfg", workers=12)]
+    if d8:
+        q.append(_mc("MCDb.tla", "MCDb_d8.cfg", workers=2, witness="TypeSafe"))
+    if tier == "thorough":
+        q.append(_mc("MCDb.tla", "MCDb_t.cfg", workers=12, xmx="16g", timeout=3600))
+    return q
+
+
+MC_STORE_Q = [dict(module="MCStore_q.tla", cfg="MCStore_q.cfg", workers=8)]
+MC_LAYOUT = lambda tier: [_mc("MCLayout.tla", "MCLayout_q.cfg", workers=2)] + ([_mc("MCLayout.tla", "MCLayout_t.cfg", workers=2, xmx="8g", timeout=3600)] if tier == "thorough" else [])
 
 
 PLANS = {
-    "C12": dict(attr=["C12.", "C05.buckets", "C15.bytes"], mc=mc_buf, workloads=wl_golden, assumptions=COMMON_ASSUME),
-    "C13": dict(attr=["C13."], mc=mc_buf, workloads=wl_wrongtype, assumptions=COMMON_ASSUME),
-    "C14": dict(attr=["C14.", "C01.result", "C02.content", "C01.outcome"], mc=mc_buf, workloads=wl_bulk, assumptions=COMMON_ASSUME),
-    "C10": dict(attr=["C10.", "C01.result", "C04.items", "C05.content", "C05.nodup", "C02.content", "C01.outcome"], mc=mc_buf, workloads=wl_conv, assumptions=COMMON_ASSUME),
-    "C07": dict(attr=["C07.", "C01.", "C02.content", "C04."], mc=mc_buf, workloads=wl_params, assumptions=COMMON_ASSUME),
-    "C11": dict(attr=["C11.", "C01.result", "C01.outcome", "C04.", "C02.content"], mc=mc_buf, workloads=wl_multi, assumptions=COMMON_ASSUME),
-    "C15": dict(attr=["C15.", "C02.content"], mc=mc_buf, workloads=wl_readonly, assumptions=COMMON_ASSUME),
-    "C18": dict(attr=["C18."], mc=mc_buf, workloads=wl_twice, assumptions=COMMON_ASSUME),
-    "C02": dict(attr=["C02.", "C01.result", "C01.outcome", "C05.content"], mc=mc_buf, workloads=wl_reopen, assumptions=COMMON_ASSUME),
-    "C03": dict(attr=["C03."], mc=mc_buf, workloads=wl_sync, assumptions=COMMON_ASSUME),
-    "C16": dict(attr=["C16.", "C03.outcome", "C01.result"], mc=mc_buf, workloads=wl_fault, assumptions=COMMON_ASSUME),
+    "C12": dict(attr=["C12.", "C05.buckets", "C15.bytes"], mc=lambda t: [_mc("MCHash.tla", "MCHash.cfg", workers=2)] + MC_STORE_Q, workloads=wl_golden, assumptions=COMMON_ASSUME),
+    "C13": dict(attr=["C13."], mc=lambda t: mc_db(t, d8=True), workloads=wl_wrongtype, assumptions=COMMON_ASSUME),
+    "C14": dict(attr=["C14.", "C01.result", "C02.content", "C01.outcome"], mc=lambda t: [_mc("MCBulk.tla", "MCBulk.cfg", workers=2)], workloads=wl_bulk, assumptions=COMMON_ASSUME),
+    "C10": dict(attr=["C10.", "C01.result", "C04.items", "C05.content", "C05.nodup", "C02.content", "C01.outcome"], mc=lambda t: [_mc("MCCodec.tla", "MCCodec.cfg", workers=2)], workloads=wl_conv, assumptions=COMMON_ASSUME),
+    "C07": dict(attr=["C07.", "C01.", "C02.content", "C04."], mc=lambda t: mc_buf(t) + MC_LAYOUT("quick") + [_mc("MCScan.tla", "MCScan_all8.cfg"), _mc("MCScan.tla", "MCScan_n32.cfg")], workloads=wl_params, assumptions=COMMON_ASSUME),
+    "C11": dict(attr=["C11.", "C01.result", "C01.outcome", "C04.", "C02.content"], mc=lambda t: mc_db(t), workloads=wl_multi, assumptions=COMMON_ASSUME),
+    "C15": dict(attr=["C15.", "C02.content"], mc=lambda t: MC_STORE_Q + [_mc("MCScan.tla", "MCScan_all8.cfg"), _mc("MCScan.tla", "MCScan_n32.cfg")], workloads=wl_readonly, assumptions=COMMON_ASSUME),
+    "C18": dict(attr=["C18."], mc=lambda t: MC_STORE_Q, workloads=wl_twice, assumptions=COMMON_ASSUME),
+    "C02": dict(attr=["C02.", "C01.result", "C01.outcome", "C05.content"], mc=lambda t: mc_buf(t) + mc_db(t), workloads=wl_reopen, assumptions=COMMON_ASSUME),
+    "C03": dict(attr=["C03."], mc=lambda t: mc_buf(t, "pinned"), workloads=wl_sync, assumptions=COMMON_ASSUME),
+    "C16": dict(attr=["C16.", "C03.outcome", "C01.result"], mc=lambda t: mc_buf(t, "clearearly"), workloads=wl_fault, assumptions=COMMON_ASSUME),
     "C04": dict(attr=["C04.", "C01.outcome"], mc=mc_scan, workloads=wl_iter, assumptions=COMMON_ASSUME),
     "C08": dict(attr=["C08.", "C01.result", "C01.outcome", "C05.content", "C05.count"], mc=mc_reloc, workloads=wl_reloc, assumptions=COMMON_ASSUME),
     "C01": dict(attr=["C01."], mc=lambda t: mc_store(t), workloads=wl_core, assumptions=COMMON_ASSUME),
     "C05": dict(attr=["C05."], mc=lambda t: mc_store(t), workloads=wl_core, assumptions=COMMON_ASSUME),
     "C06": dict(attr=["C06."], mc=lambda t: mc_store(t), workloads=wl_core, assumptions=COMMON_ASSUME),
-    "C09": dict(attr=["C09.", "C01.result"], mc=lambda t: mc_store(t), workloads=wl_core, assumptions=COMMON_ASSUME),
+    "C09": dict(attr=["C09.", "C01.result", "C01.outcome"], mc=lambda t: MC_LAYOUT(t) + mc_store(t), workloads=wl_layout, assumptions=COMMON_ASSUME),
     "C17": dict(attr=["C17.", "C06.stats_terminate"], mc=lambda t: mc_store(t), workloads=wl_core, assumptions=COMMON_ASSUME),
 }
